@@ -72,6 +72,8 @@ def sigma(pos_a, pos_b, r0, L0):
 def vk_cases(draw, nmax=28):
     nx = draw(st.integers(2, nmax))
     ps = draw(gen.logfloat(0.01, 1.0))
+    if draw(st.integers(0, 5)) == 0:
+        ps = draw(st.sampled_from([1, 2]))                       # a pixel scale given as an integer is a valid pixel scale
     return {"kind": "vk", "nx": nx, "ncol": draw(st.integers(1, min(4, nx))), "ps": ps, "r0": draw(gen.logfloat(0.05, 1.0)),
             "L0": ps * draw(gen.logfloat(5.0, 1000.0)), "seed": draw(st.integers(0, 2**31)), "c": draw(st.floats(-50, 50))}
 
@@ -80,6 +82,8 @@ def vk_cases(draw, nmax=28):
 def fried_cases(draw, nmax=20):
     nx = draw(st.integers(2, nmax))
     ps = draw(gen.logfloat(0.01, 1.0))
+    if draw(st.integers(0, 5)) == 0:
+        ps = draw(st.sampled_from([1, 2]))
     return {"kind": "fried", "nx": nx, "factor": draw(st.integers(1, 4)), "ps": ps, "r0": draw(gen.logfloat(0.05, 1.0)),
             "L0": ps * draw(gen.logfloat(5.0, 1000.0)), "seed": draw(st.integers(0, 2**31)), "c": draw(st.floats(-50, 50))}
 
@@ -105,7 +109,9 @@ def body(ctx, p):
     ctx.require(scr.scrn.shape == (p["nx"], p["nx"]), "exposed screen shape %s, requested %d" % (scr.scrn.shape, p["nx"]))
     W = scr._scrn.shape
     M, B = recover_maps(scr, rng)
-    ps, r0, L0 = p["ps"], p["r0"], p["L0"]
+    ps, r0, L0 = float(p["ps"]), p["r0"], p["L0"]
+    if isinstance(p["ps"], int):
+        ctx.classes["integer_pixel_scale"] += 1
     B0 = float(vk.B(0.0, r0, L0))
     supp = np.nonzero(np.any(M != 0, axis=0))[0]
     pix = np.stack([supp // W[1], supp % W[1]], axis=1)
@@ -171,11 +177,61 @@ def body(ctx, p):
     ctx.require(rng.requests[-1] in (nxi, (nxi,)), "add_row drew %r normals, expected %d" % (rng.requests[-1], nxi))
 
 
+# ------------------------------------------------------------------ which random numbers drive the rows (int seeds)
+
+@st.composite
+def stream_cases(draw):
+    kind = draw(st.sampled_from(["vk", "fried"]))
+    p = {"kind": kind, "nx": draw(st.integers(2, 9)), "ps": draw(st.sampled_from([0.1, 0.25, 1.0])), "r0": draw(st.sampled_from([0.1, 0.2, 0.5])),
+         "L0": draw(st.sampled_from([5.0, 25.0, 100.0])), "seed": draw(st.integers(0, 2**40)), "rows": draw(st.integers(1, 6)), "c": 0.0}
+    if kind == "vk":
+        p["ncol"] = draw(st.integers(1, min(2, p["nx"])))
+    else:
+        p["factor"] = draw(st.integers(1, 2))
+    return p
+
+
+def stream_body(ctx, p):
+    """X = A Z + B b with b a fresh unit-normal vector: with an integer seed s the k-th new row must be driven by draws
+    of default_rng(s) that were not used before (after the 2 N^2 draws of the initial screen, nx per row, in order)."""
+    from scipy import linalg
+    try:
+        scr = c_make_int(p)
+    except (linalg.LinAlgError, np.linalg.LinAlgError):
+        ctx.reject("documented_LinAlgError_on_construction")
+        return
+    ctx.case(p, nontrivial=p["rows"] >= 2, classes=[p["kind"]])
+    W = scr._scrn.shape
+    nxi, ns = W[1], W[0]
+    twin_rng = Scripted()
+    twin = make(p["kind"], p, twin_rng)
+    M, B = recover_maps(twin, twin_rng)
+    g = np.random.default_rng(p["seed"])
+    g.normal(size=(ns, ns))
+    g.normal(size=(ns, ns))                               # the initial FFT screen's two (N, N) blocks, N = stencil length
+    for k in range(p["rows"]):
+        before = np.array(scr._scrn, copy=True)
+        b = g.normal(0, 1, size=nxi)
+        scr.add_row()
+        want = M @ before.ravel() + B @ b
+        ctx.close(scr._scrn[0], want, 1e-10, "row %d of an int-seeded screen is driven by the next unused draws of default_rng(seed)" % k, scale=float(np.max(np.abs(want))) or 1.0, name="int-seed stream")
+
+
+def c_make_int(p):
+    ips = IPS()
+    with warnings.catch_warnings():
+        warnings.simplefilter("ignore")
+        if p["kind"] == "vk":
+            return ips.PhaseScreenVonKarman(p["nx"], p["ps"], p["r0"], p["L0"], random_seed=p["seed"], n_columns=p["ncol"])
+        return ips.PhaseScreenKolmogorov(p["nx"], p["ps"], p["r0"], p["L0"], random_seed=p["seed"], stencil_length_factor=p["factor"])
+
+
 def self_test():
     vk.self_test()
 
 
 LAWS = [
+    given_law("int_seed_stream", stream_cases(), stream_body, {"quick": 15, "thorough": 100}, shards={"quick": 3, "thorough": 16}),
     given_law("von_karman_xl", vk_cases(72), body, {"quick": 0, "thorough": 5}, shards={"quick": 1, "thorough": 16}),
     given_law("fried_xl", fried_cases(100), body, {"quick": 0, "thorough": 2}, shards={"quick": 1, "thorough": 16}),
     given_law("von_karman", vk_cases(28), body, {"quick": 30, "thorough": 200}, shards={"quick": 5, "thorough": 16}),
